@@ -3,7 +3,11 @@ package main
 import (
 	"context"
 	"fmt"
+	"io"
+	"net"
 	"strings"
+
+	"github.com/creachadair/jrpc2/channel"
 
 	"github.com/creachadair/jrpc2"
 	"verif/vs"
@@ -58,6 +62,22 @@ type c10P struct {
 	Callback bool
 	Stop     bool
 	Restart  bool
+	RecvErr  string // the connection ends by a Recv error of this kind instead of the peer hanging up
+}
+
+// recvErrOf builds the error a transport might report from Recv.
+func recvErrOf(kind string) error {
+	switch kind {
+	case "net.ErrClosed":
+		return fmt.Errorf("read tcp 127.0.0.1:1: %w", net.ErrClosed)
+	case "channel.ErrClosed":
+		return fmt.Errorf("recv: %w", channel.ErrClosed)
+	case "io.ErrUnexpectedEOF":
+		return io.ErrUnexpectedEOF
+	case "io.ErrClosedPipe":
+		return io.ErrClosedPipe
+	}
+	return errFault
 }
 
 func c10Server(p c10P, b Bounds) *Scenario {
@@ -75,6 +95,9 @@ func c10Server(p c10P, b Bounds) *Scenario {
 	if p.Restart {
 		f = append(f, "restart")
 	}
+	if p.RecvErr != "" {
+		f = append(f, "recv-error="+p.RecvErr)
+	}
 	return &Scenario{
 		Name:   strings.Join(f, " "),
 		Params: map[string]any{"traffic": p.Traffic, "notify": p.Notify, "callback": p.Callback, "stop": p.Stop, "restart": p.Restart},
@@ -83,7 +106,7 @@ func c10Server(p c10P, b Bounds) *Scenario {
 			msgs := tokenJSON(p.Traffic)
 			h := &seqHarness{msgs: msgs, gates: NewGates()}
 			body := func() {
-				lib, peer, _ := NewPipe(PipeOpts{Name: "srv", CloseUnblocksRecv: true, Monitor: true})
+				lib, peer, pipe := NewPipe(PipeOpts{Name: "srv", CloseUnblocksRecv: true, Monitor: true})
 				srv := jrpc2.NewServer(anyAssigner{h.handler()}, &jrpc2.ServerOptions{Concurrency: 2, AllowPush: true})
 				srv.Start(lib)
 				var j Join
@@ -117,6 +140,10 @@ func c10Server(p c10P, b Bounds) *Scenario {
 				}
 				vs.GoNamed("closer", func() {
 					vs.AwaitQuiescence()
+					if p.RecvErr != "" {
+						pipe.FailRecv = recvErrOf(p.RecvErr)
+						vs.AwaitQuiescence()
+					}
 					peer.Close()
 				})
 				srv.WaitStatus()
@@ -163,6 +190,10 @@ func c10Scenarios(tier string) []*Scenario {
 		c10Server(c10P{Traffic: []string{"c"}, Stop: true, Restart: true}, bb),
 		c10Server(c10P{Traffic: []string{"[cc]"}, Notify: true, Callback: true}, Bounds{1, 1, 0}),
 	)
+	for _, k := range []string{"net.ErrClosed", "channel.ErrClosed", "io.ErrUnexpectedEOF", "io.ErrClosedPipe", "other"} {
+		out = append(out, c10Server(c10P{Traffic: []string{"c"}, RecvErr: k}, Bounds{1, 1, 0}))
+		out = append(out, c10ClientRecvErr(k, Bounds{1, 1, 0}))
+	}
 	out = append(out, c10ClientScenarios(tier)...)
 	return out
 }
